@@ -5,5 +5,5 @@ CONSTANTS
   Bug <- EnvBug
   FullOps <- EnvFull
 VIEW IView
-INVARIANTS ITypeOK Refines EqualSetsEqualWords ObserversAgree NoPadding ConstructorsAgree Laws
+INVARIANTS ITypeOK Refines EqualSetsEqualWords ObserversAgree NoPadding UnderlyingAgrees ConstructorsAgree Laws
 CHECK_DEADLOCK FALSE
